@@ -7,6 +7,7 @@ import (
 	"os"
 	"sort"
 	"strconv"
+	"sync"
 	"sync/atomic"
 	"time"
 
@@ -133,6 +134,9 @@ func runScenario(sc Scenario, dir string) ([]verif.Event, *RunResult) {
 	}
 	if sc.Vanish {
 		r.vanishStep()
+	}
+	if sc.Starve {
+		r.starveStep()
 	}
 	if sc.RdyZero {
 		r.rdyZeroStep()
@@ -600,6 +604,110 @@ func (r *Run) rdyZeroStep() {
 		if f.Type == 2 && keyOf(f.Body) == key {
 			r.failf("[C03] a message published 1.3 s after the consumer's RDY 0 / CLS / channel pause had been processed was sent to it")
 			z.held[f.ID] = time.Now()
+		}
+	}
+}
+
+// starveStep: >= 4 channels; on one of them a consumer holds many messages and never answers, so that channel
+// has an expired in-flight message on every queue-scan tick; the same channel also holds deferred messages.
+// They must still be picked up soon after their deadline (C04), which timingLedger measures at the scan.
+func (r *Run) starveStep() {
+	t := "starve"
+	r.httpAdmin("/topic/create?topic=" + t)
+	r.httpAdmin("/channel/create?topic=" + t + "&channel=s0")
+	// the other channels of the daemon are idle: the scan sees one busy channel among several (it rescans at once only
+	// when more than a quarter of the channels had work)
+	r.httpAdmin("/topic/create?topic=idle")
+	for i := 0; i < 5; i++ {
+		r.httpAdmin(fmt.Sprintf("/channel/create?topic=idle&channel=i%d", i))
+	}
+	// quiet the scenario's own channels: their consumers stop taking messages, what they hold times out once
+	r.consMu.Lock()
+	for _, c := range r.cons {
+		if !c.cn.isClosed() && !c.closing {
+			c.cn.cmd("RDY", "", "0")
+			c.rdy = 0
+		}
+	}
+	r.consMu.Unlock()
+	time.Sleep(r.sc.MaxMsgTmo + 150*time.Millisecond)
+	stuck, err := dial(r.nd.TCP, r.newConnName("stk"))
+	if err != nil {
+		r.inconclusive("starve dial: %v", err)
+		return
+	}
+	defer stuck.close()
+	if _, err := stuck.identify(nil); err != nil {
+		r.inconclusive("starve identify: %v", err)
+		return
+	}
+	if err := stuck.sub(t, "s0"); err != nil {
+		r.inconclusive("starve sub: %v", err)
+		return
+	}
+	stuck.cmd("RDY", "", "200")
+	// the stuck consumer reads (so the daemon can keep redelivering) but never answers
+	var lastMu sync.Mutex
+	lastFrames := map[string]bool{}
+	stopEat := make(chan struct{})
+	eaten := make(chan struct{})
+	go func() {
+		defer close(eaten)
+		for {
+			select {
+			case <-stopEat:
+				return
+			default:
+			}
+			if f, ok := stuck.next(20 * time.Millisecond); ok && f.Type == 2 {
+				lastMu.Lock()
+				lastFrames[f.ID] = true
+				lastMu.Unlock()
+			}
+		}
+	}()
+	n := 150
+	for i := 0; i < n; i++ {
+		key := fmt.Sprintf("p96-%05d", i)
+		body := []byte(key + "|s")
+		rec := r.record(key, t, body, 0, "HTTP")
+		if st, _, err := r.nd.post("/pub?topic="+t, body); err == nil && st == 200 {
+			r.markAcked([]*pubRec{rec})
+		}
+		time.Sleep(3 * time.Millisecond) // spread the deliveries so that every 10 ms scan tick has an expiry
+	}
+	// from about one second on, s0 has expiries on every tick; now the deferred ones
+	time.Sleep(300 * time.Millisecond)
+	for i := 0; i < 6; i++ {
+		key := fmt.Sprintf("p95-%05d", i)
+		body := []byte(key + "|d")
+		d := 60 + 40*i // all within max-req-timeout
+		rec := r.record(key, t, body, d, "HTTP")
+		hlib.Emit("HPub", "key", key, "via", "HTTP", "t", t, "defer", d, "now", time.Now().UnixNano())
+		if st, _, err := r.nd.post(fmt.Sprintf("/pub?topic=%s&defer=%d", t, d), body); err == nil && st == 200 {
+			r.markAcked([]*pubRec{rec})
+		}
+	}
+	time.Sleep(3500 * time.Millisecond)
+	close(stopEat)
+	<-eaten
+	// release: FIN whatever the stuck consumer currently holds, keep doing so for a moment
+	for round := 0; round < 40; round++ {
+		lastMu.Lock()
+		ids := lastFrames
+		lastFrames = map[string]bool{}
+		lastMu.Unlock()
+		for id := range ids {
+			stuck.cmd("FIN", id, "")
+		}
+		for {
+			f, ok := stuck.next(10 * time.Millisecond)
+			if !ok {
+				break
+			}
+			if f.Type == 2 {
+				stuck.cmd("FIN", f.ID, "")
+			}
 		}
 	}
 }
